@@ -14,6 +14,7 @@
 #include "cmds/record.c"
 
 #include "c16_common.h"
+#include <linux/sockios.h>
 
 /* defined in uftrace.c (main program), referenced by command_record() only */
 void parse_script_opt(struct uftrace_opts *opts)
@@ -157,6 +158,26 @@ int c16_client(struct c16_client *c, int sock)
 		case OP_END:
 			send_trace_end(sock);
 			break;
+		case OP_POST: /* once the server has READ all we sent (and so has handled it): tell the others */
+		{
+			int left = 1, spins = 0, fd;
+
+			while (ioctl(sock, SIOCOUTQ, &left) == 0 && left > 0 && spins++ < 8000)
+				usleep(1000);
+			usleep(3000);
+			fd = open(op->arg, O_WRONLY | O_CREAT, 0644);
+			if (fd >= 0)
+				close(fd);
+			break;
+		}
+		case OP_WAIT: /* wait for another client's OP_POST */
+		{
+			int spins = 0;
+
+			while (access(op->arg, F_OK) != 0 && spins++ < 8000)
+				usleep(1000);
+			break;
+		}
 		case OP_ABORT: /* handled by the caller once everything is sent */
 			break;
 		case OP_SLEEP:
